@@ -7,7 +7,10 @@ case "$src" in
   rev:*) git -C /repo show "${src#rev:}" -- . ':!*_test.go' | git -C /repo apply -R || { echo "cannot reverse"; exit 9; } ;;
   *) git -C /repo apply "$src" || { echo "cannot apply"; exit 9; } ;;
 esac
+ev="evidence/$1.json"; bak=""
+if [ -f "$ev" ]; then bak=$(mktemp out/evbak.XXXXXX); cp "$ev" "$bak"; fi   # evidence of mutant runs must never be committed
 ./check "$@"; rc=$?
+if [ -n "$bak" ]; then mv -f "$bak" "$ev"; fi
 git -C /repo checkout -- . ; git -C /repo clean -fdq
 echo "mut rc=$rc"
 exit $rc
